@@ -104,7 +104,12 @@ TypedReqs ==
      base("s2", "shard", 1, <<2, 1>>, <<"p2">>, "s1"),
      base("c1", "meta", 0, <<1, 2>>, <<>>, "d1"), base("c1", "shard", 1, <<1, 2>>, <<"p1">>, NoCid),
      base("c3", "cdag", 0, <<0 - 1, 0 - 1>>, <<>>, "c2"), base("m1", "shard", 1, <<1, 2>>, <<"p3">>, NoCid),
-     base("c2", "data", 0 - 1, <<1, 2>>, <<"p3">>, NoCid), base("c3", "data", 0 - 1, <<2, 3>>, <<"p3", "p2">>, NoCid)}
+     base("c2", "data", 0 - 1, <<1, 2>>, <<"p3">>, NoCid), base("c3", "data", 0 - 1, <<2, 3>>, <<"p3", "p2">>, NoCid),
+     \* caller-preset allocations (the add path; an RPC Cluster.Pin carrying pin.Allocations) x request factors unset /
+     \* explicit: with the effective factor -1 (explicit, or unset under a cluster default of -1) the list must end up empty
+     base("c3", "data", 0 - 1, <<0, 0>>, <<"p3", "p2">>, NoCid), base("c1", "data", 0 - 1, <<0, 0>>, <<"p2">>, NoCid),
+     base("c3", "data", 0 - 1, <<0 - 1, 0 - 1>>, <<"p3">>, NoCid), base("c1", "data", 0 - 1, <<0 - 1, 0 - 1>>, <<"p1", "p3">>, NoCid),
+     base("s1", "shard", 1, <<0, 0>>, <<"p2", "p3">>, NoCid), base("c3", "data", 0, <<0, 2>>, <<"p1">>, NoCid)}
 
 C1Calls    == {PinCall("c1", o) : o \in AllOpts}
 OtherCalls == {PinCall(c, o) : c \in AllCids \ {"c1"}, o \in FewOpts \cup {[PlainOpt EXCEPT !.upd = "c2"], [PlainOpt EXCEPT !.upd = "c1"]}}
